@@ -110,7 +110,10 @@ def run(ctx: Ctx) -> None:
     global _ROOT
     ctx.rule = ("case = (module built by ClusterOps!NextModules, ignore_modules setting) enumerated by TLC "
                 "from MC_Cluster (all modules of <= 3 builder steps in shape 'small'; thorough: also all "
-                "modules of 2 arbitrary steps) plus random larger modules (-simulate); each case is rendered "
+                "modules of 2 arbitrary steps) plus random larger modules (-simulate); the builder derives SUT "
+                "classes from SUT classes and from classes imported from the helper module, every method / static "
+                "method / class method / property / lambda attribute of the base class being inherited or overridden "
+                "(ovr = none / methods / all); each case is rendered "
                 "as a package and analysed under PUBLIC, PROTECTED, ALL; non-trivial = distinct (member kind, "
                 "name class, defining module, inheritance, ignore entry, owner kind, owner name class, "
                 "visibility, ignore_modules, observed under-test bit)")
